@@ -965,6 +965,13 @@ async fn run_reader<R: tokio::io::AsyncRead + Unpin>(mut r: R, plan: HalfPlan, o
                             sig: format!("c20:{}:eof_truncated", if tcp { "tcp" } else { "udp" }),
                             what: format!("{label}: clean end of stream after {pos} bytes but the writer finished at {total}"),
                         }),
+                        // the server side of some stream failed before it had read which stream
+                        // it was (counted, and judged as a stream failure of its class) and
+                        // dropped the handle without writing: a dropped Writer ends the stream
+                        // cleanly, so "no bytes, end of stream" is exactly what was written
+                        None if dir % 2 == 1 && pos == 0 && d.written == 0 && d.inflight == 0 && gl.server_preamble_failures > 0 => {
+                            gl.dirs[dir].reader_end = Some("eof_after_server_preamble_failure".into());
+                        }
                         None => gl.findings.push(Finding {
                             sig: format!("c20:{}:eof_before_writer_finished", if tcp { "tcp" } else { "udp" }),
                             what: format!("{label}: clean end of stream after {pos} bytes while the writer was still open (written {} in flight {})", d.written, d.inflight),
